@@ -164,3 +164,75 @@ def incoming_edge_atoms(f, block):
             atoms = list(q.cond_atoms(f, c, truth))
         out.append((p, atoms))
     return out
+
+
+def walk(f, start_block, val, limit=400, stop_at_loop_back=True):
+    """guard-directed walk: follow the CFG from `start_block`, deciding every branch by evaluating its condition under the
+    valuation (two-way branches and switch statements); nothing of the analysed program is executed.
+    returns (visited element node ids in order, end) where end is the ReturnStmt node reached or a string reason"""
+    seen = []
+    b = start_block
+    back = set(f.dom().get(start_block, set())) - {start_block} if stop_at_loop_back else set()
+    first = True
+    for _ in range(limit):
+        if not first and b in back:
+            return seen, "loop back"
+        first = False
+        blk = f.blocks[b]
+        for e in blk["el"]:
+            if isinstance(e, int):
+                seen.append(e)
+                if f.nodes[e]["k"] == "ReturnStmt":
+                    return seen, e
+        if isinstance(blk.get("term"), int) and f.nodes[blk["term"]]["k"] == "ReturnStmt":
+            return seen, blk["term"]
+        succ = blk["succ"]
+        if b == f.exit:
+            return seen, "exit"
+        if len(succ) == 1:
+            if succ[0] is None:
+                return seen, "dead end"
+            b = succ[0]
+            continue
+        c = blk.get("cond")
+        if blk.get("tk") == "SwitchStmt" and c is not None:
+            v = eval_expr(f, c, val)
+            if v is None:
+                return seen, "undetermined: " + key(f, c)
+            target = None
+            default = None
+            for s in succ:
+                if s is None:
+                    continue
+                lab = f.blocks[s].get("label")
+                l = lab
+                is_def = lab is None
+                while l is not None and l >= 0 and f.nodes[l]["k"] in ("CaseStmt", "DefaultStmt"):
+                    if f.nodes[l]["k"] == "CaseStmt" and f.nodes[l].get("v") == v:
+                        target = s
+                    if f.nodes[l]["k"] == "DefaultStmt":
+                        is_def = True
+                    nxt = [x for x in f.nodes[l]["c"] if x >= 0 and f.nodes[x]["k"] in ("CaseStmt", "DefaultStmt")]
+                    l = nxt[0] if nxt else None
+                if is_def:
+                    default = s
+            b = target if target is not None else default
+            if b is None:
+                return seen, "dead end"
+            continue
+        if len(succ) == 2 and c is not None:
+            v = eval_expr(f, c, val)
+            if v is None:
+                return seen, "undetermined: " + key(f, c)
+            b = succ[0] if v else succ[1]
+            if b is None:
+                return seen, "dead end"
+            continue
+        if len(succ) == 2 and c is None:
+            # for(;;) style blocks with a pruned edge
+            b = succ[0] if succ[0] is not None else succ[1]
+            if b is None:
+                return seen, "dead end"
+            continue
+        return seen, "unsupported terminator"
+    return seen, "limit"
